@@ -1,12 +1,15 @@
 package main
 
 import (
+	"encoding/hex"
 	"fmt"
 	"io"
 	"net"
 	"net/http"
 	"net/url"
 	"path/filepath"
+	"regexp"
+	"strconv"
 	"strings"
 	"time"
 
@@ -86,5 +89,104 @@ func init() {
 			s.obs("out %s", showSeries(ts))
 		}
 		s.obs("out rest %d", len(data))
+	}
+}
+
+// showWire renders a /view or /sum response the way clihttpview does.
+func (s *sess) showWire(op string, status int, data []byte) {
+	if status == 400 {
+		s.obs("%s bad", op)
+		return
+	}
+	if status != 200 {
+		s.obs("%s err", op)
+		return
+	}
+	if len(data) == 0 {
+		s.obs("%s notexist", op)
+		return
+	}
+	h := &wt.Header{}
+	data, err := h.TakeFrom(data)
+	if err != nil {
+		s.obs("%s undecodable-header", op)
+		return
+	}
+	s.obs("%s ok", op)
+	s.obs("out wirehdr %s", showHeader(h))
+	for i := range h.ArchiveInfoList() {
+		ts := &wt.TimeSeries{}
+		data, err = ts.TakeFrom(data)
+		if err != nil {
+			s.obs("out undecodable-series %d", i)
+			return
+		}
+		s.obs("out %s", showSeries(ts))
+	}
+	s.obs("out rest %d", len(data))
+}
+
+var tsToken = regexp.MustCompile(`TS\((\d+)\)`)
+
+func init() {
+	// clirawview q=<query template> : GET /view?<query> on the real server, the query taken as it is
+	// (well-formed or not).  In the template CASEDIR stands for the directory of the case under the
+	// served root and TS(n) for the timestamp text of n ("@-5" inside has been resolved already).
+	handlers["clirawview"] = func(s *sess, tk []string) {
+		a := parseKV(tk[1:])
+		s.closeAll()
+		q := strings.TrimPrefix(strings.Join(tk[1:], " "), "q=")
+		_ = a
+		prefix := filepath.Base(s.dir)
+		q = strings.ReplaceAll(q, "CASEDIR", prefix)
+		q = tsToken.ReplaceAllStringFunc(q, func(m string) string {
+			n, _ := strconv.ParseInt(tsToken.FindStringSubmatch(m)[1], 10, 64)
+			return wt.Timestamp(uint32(n)).String()
+		})
+		s.echo(fmt.Sprintf("clirawview q=%s prefix=%s", hexStr(q), hexStr(prefix)))
+		// the raw query goes out exactly as written: no re-encoding by net/url
+		u, err := url.Parse(s.serverURL() + "/view")
+		must(err)
+		u.RawQuery = q
+		req := &http.Request{Method: "GET", URL: u, Header: http.Header{}, Host: u.Host}
+		resp, err := http.DefaultClient.Do(req)
+		if err != nil {
+			s.obs("clirawview transport-error")
+			return
+		}
+		defer resp.Body.Close()
+		data, _ := io.ReadAll(resp.Body)
+		s.showWire("clirawview", resp.StatusCode, data)
+	}
+	// cliquerycap src=<hex file name> archive= from= until= : the request the real client sends for a
+	// view of a URL source, captured by a recording server (which answers "does not exist")
+	handlers["cliquerycap"] = func(s *sess, tk []string) {
+		a := parseKV(tk[1:])
+		var gotPath, gotQuery string
+		srv := &http.Server{Handler: http.HandlerFunc(func(w http.ResponseWriter, r *http.Request) {
+			gotPath, gotQuery = r.URL.Path, r.URL.RawQuery
+			w.Header().Set("Content-Type", "application/octet-stream")
+		})}
+		l, err := net.Listen("tcp", "127.0.0.1:0")
+		must(err)
+		go srv.Serve(l)
+		defer srv.Close()
+		file := ""
+		if a["src"] != "-" {
+			b, err := hex.DecodeString(a["src"])
+			must(err)
+			file = string(b)
+		}
+		c := &cmd.ViewCommand{SrcBase: "http://" + l.Addr().String(), SrcRelPath: file, From: wt.Timestamp(a.num("from", 0)), Until: wt.Timestamp(a.num("until", 0)),
+			ArchiveID: int(a.num("archive", -1)), TextOut: "", ShowHeader: true}
+		runCmd(c.Execute)
+		now := "-"
+		if v, err := url.ParseQuery(gotQuery); err == nil {
+			if t, err := wt.ParseTimestamp(v.Get("now")); err == nil {
+				now = fmt.Sprint(uint32(t))
+			}
+		}
+		s.echo(fmt.Sprintf("%s now=%s", strings.Join(tk, " "), now))
+		s.obs("cliquerycap path=%s q=%s", gotPath, hexStr(gotQuery))
 	}
 }
